@@ -758,6 +758,14 @@ func (x *Exec) sendInstr(st *State, fr *Frame, in *ssa.Send) {
 		return
 	}
 	x.oblige(st, "chan", "send on nil channel blocks forever", Not(cv.Nil), in.Pos(), nil)
+	// "site send assert e": e holds at every blocking send statement (ch <- v outside a select) of the unit
+	// ("site send assert false": the unit never waits on a send); ch and val are bound
+	if x.contract != nil && x.contract.Directives["site"] != nil && len(st.frames) > 0 && fr == st.frames[0] {
+		x.siteAsserts(st, fr, "send", "", map[string]TV{"ch": {cv, cv.Typ}})
+		if st.dead {
+			return
+		}
+	}
 	if cv.Obj >= 0 {
 		if co, ok := st.heap[cv.Obj].(*ChanObj); ok && co.Cap.S != "" {
 			room := Or(Eq(co.Cap, IntLit(0)), Lt(x.chanLen(st, cv), co.Cap))
